@@ -189,6 +189,8 @@ def _get_ifm_to_fuse(sched_op, target_mem_area=None, target_mem_type_set=None):
                     and inp.tens is not None
                     and inp.tens.shape != []
                     and not inp.tens.ifm_write_protected
+                    # a variable tensor keeps its value between inferences
+                    and not inp.tens.is_variable
                     and not tensor_should_be_ignored(inp.tens, target_mem_area, target_mem_type_set)
                     # check input and output tensors are compatible
                     and inp.tens.format == outp.tens.format
